@@ -304,15 +304,20 @@ class NP:
         r = lift(x)
         if isinstance(r, Arr):
             r = r.copy()
+            if A.floaty(dtype):
+                r.dtype = "real"
             if isinstance(like, Arr):
                 r.kind = like.kind
             elif self._kind == "dask":
                 r.kind = "dask"
         return r
 
-    def asarray(self, x, **kw):
+    def asarray(self, x, dtype=None, **kw):
         used("np.asarray")
-        return lift(x)
+        r = lift(x)
+        if isinstance(r, Arr) and A.floaty(dtype) and r.dtype != "real":
+            r = r.astype(float)
+        return r
 
     def atleast_2d(self, x):
         used("np.atleast_2d")
@@ -366,25 +371,25 @@ class NP:
 
     absolute = abs
 
-    def square(self, x):
+    def square(self, x, dtype=None, **kw):
         used("np.square")
-        return ewise(lambda a: P(a) * P(a), lift(x))
+        return ewise(lambda a: P(a) * P(a), lift(x), arith="square", dtype="real" if A.floaty(dtype) else None)
 
-    def power(self, x, n):
+    def power(self, x, n, dtype=None, **kw):
         used("np.power")
-        return ewise(lambda a: A._pow(a, to_scalar(n)), lift(x))
+        return ewise(lambda a: A._pow(a, to_scalar(n)), lift(x), arith="power", dtype="real" if A.floaty(dtype) else None)
 
-    def multiply(self, a, b):
+    def multiply(self, a, b, dtype=None, **kw):
         used("np.multiply")
-        return ewise(lambda x, y: P(x) * P(y), lift(a), lift(b))
+        return ewise(lambda x, y: P(x) * P(y), lift(a), lift(b), arith="multiply", dtype="real" if A.floaty(dtype) else None)
 
-    def add(self, a, b):
+    def add(self, a, b, dtype=None, **kw):
         used("np.add")
-        return ewise(lambda x, y: P(x) + P(y), lift(a), lift(b))
+        return ewise(lambda x, y: P(x) + P(y), lift(a), lift(b), arith="add", dtype="real" if A.floaty(dtype) else None)
 
-    def subtract(self, a, b):
+    def subtract(self, a, b, dtype=None, **kw):
         used("np.subtract")
-        return ewise(lambda x, y: P(x) - P(y), lift(a), lift(b))
+        return ewise(lambda x, y: P(x) - P(y), lift(a), lift(b), arith="subtract", dtype="real" if A.floaty(dtype) else None)
 
     def divide(self, a, b):
         used("np.divide")
